@@ -67,7 +67,10 @@ BYTES = ["7879", "", "78"]
 
 def gen_record(r, shape):
     """matching shape: all fields; non-matching: some fields absent (the expression may reference them)."""
-    sub = {"name": "t/sub", "fields": [["string", "q", r.choice(STRS)], ["varint", "m", r.choice(INTS)]]}
+    # two levels of nesting: a typed matcher has to look into records inside records (r.sub.deep.z)
+    deep = {"name": "t/deep", "fields": [["string", "z", r.choice(STRS)], ["varint", "w", r.choice(INTS)]]}
+    sub = {"name": "t/sub", "fields": [["string", "q", r.choice(STRS)], ["varint", "m", r.choice(INTS)],
+                                       ["record", "deep", deep]]}
     fields = [
         ["string", "s", r.choice(STRS + [None])], ["string", "t", r.choice(STRS)],
         ["varint", "n", r.choice(INTS + [None])], ["varint", "m", r.choice(INTS)],
@@ -103,7 +106,7 @@ class G:
         r = self.r
         ivars = [v for v, t in env if t == "int"]
         if d <= 0 or r.chance(35):
-            return r.weighted([(3, "r.n"), (2, "r.m"), (3, self.const_int()), (1, "r.sub.m")]
+            return r.weighted([(3, "r.n"), (2, "r.m"), (3, self.const_int()), (1, "r.sub.m"), (1, "r.sub.deep.w")]
                               + ([(4, r.choice(ivars))] if ivars else []))
         w = r.below(10)
         if w < 5:
@@ -118,7 +121,7 @@ class G:
         r = self.r
         svars = [v for v, t in env if t == "str"]
         if d <= 0 or r.chance(35):
-            return r.weighted([(3, "r.s"), (2, "r.t"), (3, self.const_str()), (1, "r.sub.q")]
+            return r.weighted([(3, "r.s"), (2, "r.t"), (3, self.const_str()), (1, "r.sub.q"), (1, "r.sub.deep.z")]
                               + ([(4, r.choice(svars))] if svars else []))
         w = r.below(10)
         if w < 3:
